@@ -118,6 +118,12 @@ func runC05EOF(c *Ctx) {
 		}
 	})
 	if len(nexts) == 0 {
+		// the same request made by a helper introduced after the baseline: the
+		// helper must return nil only on the wktUnexpectedEOF edge, and
+		// UnmarshalWKT must succeed only when the helper's error is nil
+		if runC05EOFHelper(c, f) {
+			return
+		}
 		c.Bad(f.Pos(), fn, "trailing-token check", "UnmarshalWKT no longer asks the lexer for a token after the geometry: trailing input is accepted")
 		return
 	}
@@ -157,6 +163,104 @@ func runC05EOF(c *Ctx) {
 		}
 		c.Check(!bad, nx.Pos(), fn, "trailing-token check", "success is reachable only when the trailing request failed with wktUnexpectedEOF", "a success return is reachable after the trailing lexer request without errors.Is(err, wktUnexpectedEOF) having been established: malformed trailing input (a lexer error other than EOF) is accepted")
 	}
+}
+
+// isLexerNext: a call to the WKT lexer's next method.
+func isLexerNext(call *ssa.Call) bool {
+	return strings.HasSuffix(calleeName(call), ".next") && strings.Contains(calleeName(call), "exer")
+}
+
+// eofOnlySuccess: in fun, every return after the lexer request nx that is not
+// provably a non-nil error lies behind the true edge of
+// errors.Is(<error of nx>, wktUnexpectedEOF).
+func eofOnlySuccess(fun *ssa.Function, nx *ssa.Call) (hasErr, ok bool) {
+	var errv ssa.Value
+	for _, r := range *nx.Referrers() {
+		if ex, isEx := r.(*ssa.Extract); isEx && isErrorType(ex.Type()) {
+			errv = ex
+		}
+	}
+	if errv == nil {
+		return false, false
+	}
+	isEOFTest := func(cond ssa.Value) bool {
+		call, isCall := cond.(*ssa.Call)
+		if !isCall || calleeName(call) != "errors.Is" || call.Call.Args[0] != errv {
+			return false
+		}
+		s, _ := accessPath(call.Call.Args[1])
+		return strings.Contains(s, "wktUnexpectedEOF")
+	}
+	reached := reachableReturns(fun, func(cond ssa.Value, takenTrue bool) bool {
+		return !(isEOFTest(cond) && takenTrue)
+	})
+	for _, r := range returnsOf(fun) {
+		if reached[r] && !provablyNonNilErr(r) && r.Block().Index > nx.Block().Index && nx.Block().Dominates(r.Block()) {
+			return true, false
+		}
+	}
+	return true, true
+}
+
+func runC05EOFHelper(c *Ctx, f *ssa.Function) bool {
+	fn := FuncName(f)
+	found := false
+	eachInstr(f, func(in ssa.Instruction) {
+		hc, ok := in.(*ssa.Call)
+		if !ok || found {
+			return
+		}
+		h := staticCallee(hc)
+		if h == nil || !isNewHelper(h) || !isErrorType(hc.Type()) {
+			return
+		}
+		var nexts []*ssa.Call
+		eachInstr(h, func(in2 ssa.Instruction) {
+			if call, ok := in2.(*ssa.Call); ok && isLexerNext(call) {
+				nexts = append(nexts, call)
+			}
+		})
+		if len(nexts) == 0 {
+			return
+		}
+		found = true
+		for _, nx := range nexts {
+			hasErr, good := eofOnlySuccess(h, nx)
+			switch {
+			case !hasErr:
+				c.Bad(nx.Pos(), fn, "trailing-token check", "the error of the trailing lexer request is discarded")
+			default:
+				c.Check(good, nx.Pos(), fn, "trailing-token check", "the helper "+FuncName(h)+" returns nil only when the trailing request failed with wktUnexpectedEOF", "the helper "+FuncName(h)+" can return nil after the trailing lexer request without errors.Is(err, wktUnexpectedEOF) having been established: malformed trailing input is accepted")
+			}
+		}
+		// in UnmarshalWKT: success only on the helper's nil edge, and behind the call
+		isNilEdge := func(cond ssa.Value, takenTrue bool) bool {
+			bo, ok := cond.(*ssa.BinOp)
+			if !ok {
+				return false
+			}
+			if !((bo.X == ssa.Value(hc) && isNilConst(bo.Y)) || (bo.Y == ssa.Value(hc) && isNilConst(bo.X))) {
+				return false
+			}
+			return (bo.Op == token.NEQ && !takenTrue) || (bo.Op == token.EQL && takenTrue)
+		}
+		reached := reachableReturns(f, func(cond ssa.Value, takenTrue bool) bool {
+			return !isNilEdge(cond, takenTrue)
+		})
+		bad := false
+		for _, r := range returnsOf(f) {
+			if reached[r] && !provablyNonNilErr(r) && r.Block().Index > hc.Block().Index && hc.Block().Dominates(r.Block()) {
+				bad = true
+			}
+		}
+		c.Check(!bad, hc.Pos(), fn, "result of the trailing-token helper", "success is reachable only when the helper returned nil", "UnmarshalWKT can succeed although the trailing-token helper "+FuncName(h)+" returned an error: trailing input is accepted")
+		for _, r := range returnsOf(f) {
+			if len(r.Results) == 2 && isNilConst(r.Results[1]) && !hc.Block().Dominates(r.Block()) {
+				c.Bad(instrPos(r), fn, "success return before the trailing-token check", "UnmarshalWKT returns success at "+c.P.Pos(instrPos(r))+" without having asked the lexer for the end of the input: on that path (e.g. an option-dependent early return) trailing tokens are accepted")
+			}
+		}
+	})
+	return found
 }
 
 func runC06Separator(c *Ctx) {
@@ -428,6 +532,28 @@ func allAnon(f *ssa.Function) []*ssa.Function {
 	return out
 }
 
+// withNewHelpers: f and the helpers introduced after the baseline that it
+// calls (transitively, bounded depth) — the code that used to be f's body.
+func withNewHelpers(f *ssa.Function) []*ssa.Function {
+	out := []*ssa.Function{f}
+	seen := map[*ssa.Function]bool{f: true}
+	for i := 0; i < len(out) && i < 32; i++ {
+		eachCall(out[i], func(call ssa.CallInstruction) {
+			if h := staticCallee(call); h != nil && !seen[h] && isNewHelper(h) && len(h.Blocks) > 0 {
+				seen[h] = true
+				out = append(out, h)
+			}
+		})
+	}
+	return out
+}
+
+func eachCallWithNewHelpers(f *ssa.Function, fn func(call ssa.CallInstruction)) {
+	for _, g := range withNewHelpers(f) {
+		eachCall(g, fn)
+	}
+}
+
 func runC19Conic(c *Ctx) {
 	n := 0
 	for _, p := range cartoProjections(c) {
@@ -444,7 +570,7 @@ func runC19Conic(c *Ctx) {
 		f := p.reverse
 		usesAtanQuot, usesAtan2 := false, false
 		var pos token.Pos
-		eachCall(f, func(call ssa.CallInstruction) {
+		eachCallWithNewHelpers(f, func(call ssa.CallInstruction) {
 			switch calleeName(call) {
 			case "carto.atan", "math.Atan":
 				if q, ok := stripLoad(call.Common().Args[0]).(*ssa.BinOp); ok && q.Op == token.QUO {
